@@ -18,7 +18,7 @@ Require Import Grits.Base Grits.ModeDefs Grits.Modes Grits.STypes Grits.Forms Gr
 
 (* a channel with somebody behind it: a live provider, or a buffered message carrying channels *)
 Definition alive (c : config) (k : cid) : Prop :=
-  (exists self p, procs c !! self = Some p /\ own_chan p k) \/
+  (exists self p, procs c !! self = Some p /\ k ∈ cids_of (pr_provs p)) \/
   (exists st m, chans c !! k = Some st /\ ch_buf st = Some m /\ refs (OMsg k m) <> []).
 
 (* the survivors of a synchronous run: a process alive at quiescence is blocked on ITS OWN provider
@@ -30,7 +30,7 @@ Definition progress_sync_statement (D : tenv) (F : list fundef) (teq : sty -> st
     (forall self p, procs c !! self = Some p ->
        exists k, own_chan p k /\
          (action_of Sync D p = ARecv k \/ exists m, action_of Sync D p = ASend k m /\ is_pos_rule (m_rule m) = true)) /\
-    ((forall k, (exists self p, procs c !! self = Some p /\ own_chan p k) ->
+    ((forall k, (exists self p, procs c !! self = Some p /\ k ∈ cids_of (pr_provs p)) ->
                 exists o, obj_in c o /\ k ∈ refs o) -> procs c = ∅).
 
 Section RtProgress.
@@ -53,13 +53,10 @@ Proof. simpl. destruct (m_rule m); simpl; try discriminate; intros _; set_solver
 Lemma pos_msg_provides k m : is_pos_rule (m_rule m) = true -> provides (OMsg k m) = [k].
 Proof. simpl. destruct (m_rule m); simpl; try discriminate; reflexivity. Qed.
 
-Lemma own_chan_unique Δ p k k' : proc_typed Δ p -> own_chan p k -> own_chan p k' -> k = k'.
+Lemma provides_exists Δ p : proc_typed Δ p -> exists k, k ∈ cids_of (pr_provs p).
 Proof.
-  intros [n [s [rs [Hp [[c [t [Hc _]]] _]]]]]. unfold own_chan. rewrite Hp. simpl. rewrite Hc. set_solver.
-Qed.
-Lemma own_chan_exists Δ p : proc_typed Δ p -> exists k, own_chan p k.
-Proof.
-  intros [n [s [rs [Hp [[c [t [Hc _]]] _]]]]]. exists c. unfold own_chan. rewrite Hp. simpl. rewrite Hc. set_solver.
+  intros [s [rs [Hne [Hp _]]]]. destruct (pr_provs p) as [|n r]; [contradiction|].
+  inversion Hp as [|? ? [c [t [Hc _]]] _]; subst. exists c. simpl. rewrite Hc. set_solver.
 Qed.
 
 Section Quiescent.
@@ -78,7 +75,9 @@ Proof.
   pose proof (typed_action D F teq Hteq HF Δ p (Hp _ _ Ep)) as Hv.
   pose proof (topo_closed_unused Async D c eq_refl Ht) as Hcl.
   remember (action_of Async D p) as a eqn:Ea. symmetry in Ea.
-  destruct Hv as [k m Hmsg Hside|k Hk Hside Hrecv|Hint].
+  destruct Hv as [k m Hmsg Hside|k Hk Hside Hrecv|Hint|Hdup].
+  4: { exfalso. destruct (Hdup self (ns_fresh_free Δ c self p Hf Ep)) as [e [Δ' [He _]]].
+       rewrite He in Hs. discriminate. }
   - (* a sender is never blocked *)
     exfalso. destruct (Hd k) as [st Hst]; [destruct Hmsg as [T [HT _]]; eauto|]. rewrite Hst in Hs.
     rewrite (Hcl self p k st Ep (or_intror (ex_intro _ m Ea)) Hst) in Hs.
@@ -90,7 +89,8 @@ Proof.
     destruct Hside as [[Hown Hpos]|[Hbody Hneg]].
     + rewrite Hpos in Hpol. destruct (is_pos_rule (m_rule m')) eqn:Epos'; [|exfalso; eapply pol_unique; eauto].
       assert (E : OProc self p = OMsg k m').
-      { apply (topo_prov_unique c Ht _ _ k); auto. rewrite pos_msg_provides by auto. set_solver. }
+      { apply (topo_prov_unique c Ht _ _ k); auto; [apply own_chan_provides; auto|].
+        rewrite pos_msg_provides by auto. set_solver. }
       discriminate.
     + rewrite Hneg in Hpol. destruct (is_pos_rule (m_rule m')) eqn:Epos'; [exfalso; eapply pol_unique; eauto|].
       assert (E : OProc self p = OMsg k m').
@@ -135,7 +135,7 @@ Proof.
       simpl in Ho'. destruct (blocked_in_recv s' q Ho') as [w [stw [Eaw [[Tw [HTw Hside]] [Hstw [Ebw _]]]]]].
       destruct Hside as [[Hown Hneg]|[Hbody Hpos]].
       + (* on its own channel j *)
-        assert (w = j) by (eapply own_chan_unique; eauto; eapply (ct_procs _ _ _ _ _ Hc); eauto). subst w.
+        assert (j = w) by (eapply own_chan_only; eauto). subst w.
         destruct Hneeds as [[self [p [T [Ep [Ea [HT Hpos]]]]]]|[st [m [Hst [Eb _]]]]].
         * rewrite HT in HTw. injection HTw as <-. eapply pol_unique; eauto.
         * rewrite Hst in Hstw. injection Hstw as <-. congruence.
@@ -186,7 +186,7 @@ Proof.
   { induction n as [|n IH]; intros k Hn Hal; [lia|].
     destruct (Hroots k Hal) as [o [Ho Hk]].
     destruct o as [s q|j m].
-    - simpl in Ho. destruct (own_chan_exists Δ q (ct_procs _ _ _ _ _ Hc _ _ Ho)) as [kq Hkq].
+    - simpl in Ho. destruct (provides_exists Δ q (ct_procs _ _ _ _ _ Hc _ _ Ho)) as [kq Hkq].
       apply (IH kq).
       + assert (rk kq < rk k)%nat by (apply (Hrk (OProc s q)); auto). lia.
       + left. exists s, q. auto.
@@ -215,7 +215,7 @@ Proof.
   - intros k st m. eapply buffered_positive; eauto.
   - intros Hroots. apply map_empty. intros self.
     destruct (procs c !! self) as [p|] eqn:Ep; auto. exfalso.
-    destruct (own_chan_exists Δ p (ct_procs _ _ _ _ _ Hc _ _ Ep)) as [k Hk].
+    destruct (provides_exists Δ p (ct_procs _ _ _ _ _ Hc _ _ Ep)) as [k Hk].
     apply (no_alive Δ c Hc Ht Hq Hroots k). left. exists self, p. auto.
 Qed.
 
@@ -240,7 +240,9 @@ Proof.
   pose proof (Hq (Run self)) as Hs. simpl in Hs. rewrite Ep in Hs.
   pose proof (typed_action_md D F teq Hteq HF Sync Δ p eq_refl (Hp _ _ Ep)) as Hv.
   remember (action_of Sync D p) as a eqn:Ea. symmetry in Ea.
-  destruct Hv as [k m Hmsg Hside|k Hk Hside Hrecv|Hint].
+  destruct Hv as [k m Hmsg Hside|k Hk Hside Hrecv|Hint|Hdup].
+  4: { exfalso. destruct (Hdup self (ns_fresh_free Δ c self p Hf Ep)) as [e [Δ' [He _]]].
+       rewrite He in Hs. discriminate. }
   - left. eauto.
   - right. exists k. split; auto. split; auto. intros r m Hfr Hmsg.
     destruct (Hrecv r m Hfr Hmsg) as [e [Δ' [He _]]]. eauto.
@@ -301,7 +303,7 @@ Proof.
     destruct (sync_blocked s' q Ho') as [[w [mq [Eaq [Hmq Hside]]]]|[w [Eaq [[Tw [HTw Hside]] Hrq]]]].
     - (* the provider sends *)
       destruct Hside as [[Hown Hpos]|[Hbody Hneg]].
-      + assert (w = j) by (eapply own_chan_unique; eauto; eapply (ct_procs _ _ _ _ _ Hc); eauto). subst w.
+      + assert (j = w) by (eapply own_chan_only; eauto). subst w.
         destruct Hact as [[T [Ha [HT [Hpol Hrp]]]]|[m [Ha [Hm Hneg]]]].
         * eapply (rendezvous_enabled s' self q p j mq); eauto.
         * destruct (msg_pol _ _ _ Hm) as [T1 [HT1 Hp1]]. destruct (msg_pol _ _ _ Hmq) as [T2 [HT2 Hp2]].
@@ -315,7 +317,7 @@ Proof.
         * exists s', q. split; auto. split; auto. right. exists mq. auto.
     - (* the provider receives *)
       destruct Hside as [[Hown Hneg]|[Hbody Hpos]].
-      + assert (w = j) by (eapply own_chan_unique; eauto; eapply (ct_procs _ _ _ _ _ Hc); eauto). subst w.
+      + assert (j = w) by (eapply own_chan_only; eauto). subst w.
         destruct Hact as [[T [Ha [HT [Hpol Hrp]]]]|[m [Ha [Hm Hnegm]]]].
         * rewrite HT in HTw. injection HTw as <-. eapply pol_unique; eauto.
         * eapply (rendezvous_enabled self s' p q j m); eauto.
@@ -340,15 +342,15 @@ Proof.
 Qed.
 
 Lemma no_alive_sync :
-  (forall k, (exists self p, procs c !! self = Some p /\ own_chan p k) -> exists o, obj_in c o /\ k ∈ refs o) ->
-  forall k, ~ exists self p, procs c !! self = Some p /\ own_chan p k.
+  (forall k, (exists self p, procs c !! self = Some p /\ k ∈ cids_of (pr_provs p)) -> exists o, obj_in c o /\ k ∈ refs o) ->
+  forall k, ~ exists self p, procs c !! self = Some p /\ k ∈ cids_of (pr_provs p).
 Proof.
   intros Hroots. destruct (topo_rank c Ht) as [rk [M [HM Hrk]]].
-  assert (H : forall n k, (rk k < n)%nat -> ~ exists self p, procs c !! self = Some p /\ own_chan p k).
+  assert (H : forall n k, (rk k < n)%nat -> ~ exists self p, procs c !! self = Some p /\ k ∈ cids_of (pr_provs p)).
   { induction n as [|n IH]; intros k Hn Hal; [lia|].
     destruct (Hroots k Hal) as [o [Ho Hk]].
     destruct o as [s q|j m]; [|exfalso; eapply no_msg_objects; eauto].
-    simpl in Ho. destruct (own_chan_exists Δ q (ct_procs _ _ _ _ _ Hc _ _ Ho)) as [kq Hkq].
+    simpl in Ho. destruct (provides_exists Δ q (ct_procs _ _ _ _ _ Hc _ _ Ho)) as [kq Hkq].
     apply (IH kq).
     - assert (rk kq < rk k)%nat by (apply (Hrk (OProc s q)); auto). lia.
     - exists s, q. auto. }
@@ -363,7 +365,7 @@ Proof.
   - intros self p Ep. eapply sync_on_own; eauto.
   - intros Hroots. apply map_empty. intros self.
     destruct (procs c !! self) as [p|] eqn:Ep; auto. exfalso.
-    destruct (own_chan_exists Δ p (ct_procs _ _ _ _ _ Hc _ _ Ep)) as [k Hk].
+    destruct (provides_exists Δ p (ct_procs _ _ _ _ _ Hc _ _ Ep)) as [k Hk].
     apply (no_alive_sync Δ c Hc Ht Hbe Hroots k). exists self, p. auto.
 Qed.
 
